@@ -331,7 +331,7 @@ def stream_case(rng, cid, tier, big=False, kchoices=None):
     for s in range(nslots):
         shape = rng.choice(SHAPES); shapes.append(shape)
         if big:
-            n = rng.choice([3000, 8000, 20000]) if tier == "quick" else rng.choice([20000, 60000, 150000])
+            n = rng.choice([3000, 8000, 20000]) if tier == "quick" else rng.choice([20000, 40000, 80000])
         else:
             n = rng.choice([0, 1, 2, 3, 5, 17, 100, 400, 1500]) if tier == "quick" else rng.choice([0, 1, 2, 3, 50, 1000, 5000, 20000])
         vals = stream(rng, shape, n)
